@@ -215,16 +215,27 @@ def link(cfgname, objs, hobjs, outname=None, extra_libs=()):
 
 
 def build(cfgnames, real_headers=None):
-    """Build vf binaries for the given configurations; returns {cfg: path}."""
+    """Build vf binaries for the given configurations (in parallel); returns {cfg: path}."""
     real_headers = real_headers or {}
-    with ThreadPoolExecutor(JOBS) as pool:
-        hf = pool.submit(build_harness, pool) if False else None
+    cfgnames = list(dict.fromkeys(cfgnames))
+    with ThreadPoolExecutor(JOBS) as pool, ThreadPoolExecutor(max(1, len(cfgnames))) as outer:
         hobjs = build_harness(pool)
+        futs = {c: outer.submit(build_lib, c, pool, real_headers.get(c)) for c in cfgnames}
         res = {}
-        libs = {c: build_lib(c, pool, real_headers.get(c)) for c in cfgnames}
         for c in cfgnames:
-            res[c] = link(c, libs[c], hobjs)
+            res[c] = link(c, futs[c].result(), hobjs)
     return res
+
+
+def cfg_from_header(name, text, san=SAN, wrap=False):
+    """Register a configuration whose m4ri_config.h was produced by the repository's own configure."""
+    def val(k, d):
+        m = re.search(r"#define\s+%s\s+(\S+)" % k, text)
+        return int(m.group(1)) if m and m.group(1).isdigit() else d
+    CONFIGS[name] = mkcfg(name, caches=(val("__M4RI_CPU_L1_CACHE", 0), val("__M4RI_CPU_L2_CACHE", 0), val("__M4RI_CPU_L3_CACHE", 0)),
+                          sse2=val("__M4RI_HAVE_SSE2", 1), openmp=val("__M4RI_HAVE_OPENMP", 0), mmc=val("__M4RI_ENABLE_MMC", 1),
+                          mzdcache=val("__M4RI_ENABLE_MZD_CACHE", 1), san=san, wrap=wrap)
+    return CONFIGS[name]
 
 
 def gc_objects(max_bytes=6 << 30):
